@@ -59,6 +59,11 @@ def effect_trace(P, b):
 
 def run(chk, ctx):
     P = Prog(ctx["facts"])
+    # "executed as three consecutive device writes": every row of the triple is one driver call with the row's inputs — the
+    # write-only call for the two mid-clock rows, the reading call for the third (shared with C02)
+    from . import c02 as _c02
+    _c02.run(chk.only(("CNT:handle_io:exactly-one-driver-call", "GUARD:handle_io:read-iff-update_output", "CNT:next:one-call-per-yielded-row", "ORG:handle_io:write_input_and_read_output-args",
+                       "ORG:handle_io:write_input-args", "ORG:next:handle_io-gets-this-rows-inputs", "ORG:provided-write_input", "WHO:EvaluatedRow.inputs-unwritten")), ctx)
     from .iter_rules import plumbing_rule
     plumbing_rule(chk, P, {"TestCase": ("input_indices", "expected_indices"), "DataRowIteratorTestData": ("signals", "input_indices", "expected_indices")})   # what the parser / the binding produced is what runs
     from . import eqrules
